@@ -149,9 +149,12 @@ __CPROVER_ensures(g_on && RET == AWS_OP_SUCCESS && g_blk < to_encode->len && g_s
 
 /* appends 2n characters, growing the buffer through aws_byte_buf_reserve_relative when needed */
 int aws_hex_encode_append_dynamic(const struct aws_byte_cursor *AWS_RESTRICT to_encode, struct aws_byte_buf *AWS_RESTRICT output)
-__CPROVER_requires(CUR_OK(to_encode) && to_encode->ptr != NULL)
+/* the input is backed by memory, or it is a view so long (> SIZE_MAX/2) that 2n overflows: such a view cannot exist in
+ * memory, it only exercises the overflow check, which must refuse it before touching ptr */
+__CPROVER_requires(__CPROVER_is_fresh(to_encode, sizeof(*to_encode)) &&
+                   (to_encode->len > SIZE_MAX / 2 || (to_encode->ptr != NULL && __CPROVER_is_fresh(to_encode->ptr, to_encode->len))))
 __CPROVER_requires(BUF_OK(output) && output->allocator != NULL)
-REQ_WITNESS_HEX_IN(to_encode)
+__CPROVER_requires(g_on ==> (g_blk < to_encode->len && to_encode->len <= SIZE_MAX / 2 ==> g_b0 == to_encode->ptr[g_blk]))
 REQ_WITNESS_BUF(output)
 /* growth replaces the storage: the whole buffer object (incl. the struct) is in the frame; what must stay is stated below */
 __CPROVER_assigns(*output)
